@@ -111,3 +111,13 @@ Proof.
   rewrite Forall_forall in IH. apply (IH s Hs); [|exact Hq].
   rewrite forallb_forall in Hsubs. apply Hsubs, Hs.
 Qed.
+
+(* what regkey_of recognises *)
+Lemma regkey_of_spec w r : regkey_of w = Some r ->
+  (op_of_code (opGetOpCode w) = Some OP_SELF \/ op_of_code (opGetOpCode w) = Some OP_GETTABLEKS) /\
+  opGetArgC w = r /\ opIsK r = false.
+Proof.
+  unfold regkey_of. destruct (op_of_code (opGetOpCode w)) as [o|]; [|discriminate].
+  destruct o; try discriminate;
+    (destruct (opIsK (opGetArgC w)) eqn:E; [discriminate|]; intros H; inversion H; subst; auto).
+Qed.
